@@ -27,7 +27,7 @@ def matvec(T, v):
 def run(tier, seed, only=None):
     rep = report.Report(PID, tier, seed)
     timeout = 20.0 if tier == "quick" else 60.0
-    cfgs = [("1symL_2x2", [K.surface(2, 2, True)])]
+    cfgs = [("1symL_2x2", [K.surface(2, 2, True)]), ("1symL_3x2", [K.surface(3, 2, True)])]
     if tier == "thorough":
         cfgs += [("symL_2x3+full_2x3", [K.surface(2, 3, True), K.surface(2, 3, False, name="tail")])]
     al, be, M = var("alpha[0]"), var("beta[0]"), var("Mach_number[0]")
@@ -205,7 +205,7 @@ def group_level(rep, tier, timeout):
     from symoas import kernels, pipe
     from symoas.sym import PI
 
-    cfgs = [("symL_2x2", [K.surface(2, 2, True)], False), ("symL_2x2 rotational", [K.surface(2, 2, True)], True)]
+    cfgs = [("symL_2x2", [K.surface(2, 2, True)], False), ("symL_3x2 rotational", [K.surface(3, 2, True)], True)]
     if tier == "thorough":
         cfgs += [("symL_2x2+full_2x3", [K.surface(2, 2, True), K.surface(2, 3, False, name="tail")], False),
                  ("full_2x3 rotational", [K.surface(2, 3, False)], True)]
